@@ -629,6 +629,10 @@ def eager_table(case):
                 raise Undefined("an encoder raises on a cell: the eager stage itself fails")
             e.missing = m
         if e is not None:
+            if kind == "sparse":
+                # by-key access of an absent key must raise KeyError like the eager dict; raw integer keys of a header-carrying base are exempt
+                e.absent_raises = True
+                e.leaky = case["base"]["wrap"] == "arff" or (case["base"]["wrap"] == "lazy" and case["base"].get("hdr") is not None)
             out.append(e)
     return out
 
@@ -652,7 +656,9 @@ def eager_feats(e):
         if e.hdr is not None:
             hdr = {nm: (j if j < i else j - 1) for nm, j in e.hdr.items() if j != i}
         return ED(e.vals[:i] + e.vals[i + 1:], hdr)
-    return ES({k: v for k, v in e.d.items() if k != e.lab[0]})
+    f = ES({k: v for k, v in e.d.items() if k != e.lab[0]})
+    f.absent_raises, f.leaky = getattr(e, "absent_raises", False), getattr(e, "leaky", True)
+    return f
 
 
 UNDEF = {"u": 1}
@@ -730,6 +736,10 @@ def eager_access(e, acc):
             v = e.vals[e.hdr[k]]
         else:
             if k not in e.d:
+                # a plain dict raises KeyError for an absent key (theorems sparse_get / lazy_error_eq_eager_error_sparse); no claim for a raw
+                # integer key of a row whose base carries a header map (the hidden keys `leak` of the model, sparse_get_counterexample)
+                if getattr(e, "absent_raises", False) and not (isinstance(k, int) and not isinstance(k, bool) and getattr(e, "leaky", True)):
+                    return {"e": 1, "cls": "KeyError"}
                 return UNDEF
             v = e.d[k]
         return UNDEF if isinstance(v, ErrCell) else val(canon_val(v))
@@ -750,7 +760,7 @@ def eager_access(e, acc):
             return UNDEF
         return val(sort_pairs([[canon_key(k), canon_val(v)] for k, v in e.d.items()]))
     if a == "eq":
-        return val(acc["o"] != "diff")
+        return val(acc["o"] != "diff" and acc["o"] not in LENGTH_EQ)
     raise ValueError(acc)
 
 
@@ -962,6 +972,26 @@ def perturb(plain, how):
     return d
 
 
+LENGTH_EQ = ("pad", "cut")      # == against the eager row with n surplus None cells / without its last n cells: never equal (another length)
+
+
+def other_plain(plain, acc):
+    """the other side of an == access built from the eager row: diff = perturbed; pad = n more cells (list: None, dict: keys ~pad<i> -> None);
+    cut = the last n cells removed (an empty row is padded instead, so the length always differs)"""
+    o = acc["o"]
+    if o == "diff":
+        return perturb(plain, acc.get("h", 0))
+    if o in LENGTH_EQ:
+        n = max(1, int(acc.get("n", 1)))
+        if o == "cut" and len(plain) > 0:
+            n = min(n, len(plain))
+            return plain[:-n] if isinstance(plain, list) else dict(list(plain.items())[:-n])
+        if isinstance(plain, list):
+            return plain + [None] * n
+        return dict(plain, **{"~pad%d" % i: None for i in range(n)})
+    return plain
+
+
 def real_access(r, acc, e):
     """perform one access on the real row object; e = the eager row (only used to build the other side of ==)"""
     import coba.pipes.rows as R
@@ -1038,8 +1068,8 @@ def real_access(r, acc, e):
                 return UNDEF
             plain = eager_plain(e)
             o = acc["o"]
-            if o == "diff":
-                plain = perturb(plain, acc.get("h", 0))
+            if o == "diff" or o in LENGTH_EQ:
+                plain = other_plain(plain, acc)
                 return val(bool(r == plain))
             if o == "same":
                 return val(bool(r == plain))
@@ -1053,6 +1083,45 @@ def real_access(r, acc, e):
         raise
     except Exception as ex:  # the row access raised
         return {"e": type(ex).__name__}
+
+
+def real_probe(row, kind):
+    """`headers` / `missing` (dense) or `_inv` / `missing` (sparse) of the row seen through d = 0..3 further wrapping views, each put on by a fresh
+    `EncodeRows({})` (an EncodeDense with identity encoders / an EncodeSparse without encoders): attribute forwarding through chains of `__getattr__`
+    (model: probeD / probeS, theorems probe_depth_independent, forwarding_depth_independent)"""
+    import coba.pipes.rows as R
+    out = []
+    w = row
+    for d in range(4):
+        if d > 0:
+            try:
+                w = next(iter(R.EncodeRows({}).filter([w])))
+            except Exception as ex:
+                out.append({"wrap_err": type(ex).__name__})
+                break
+        o = {}
+        try:
+            m = w.missing
+            o["missing"] = {"v": bool(m)} if isinstance(m, bool) else {"v": ["not-a-bool", repr(m)[:40]]}
+        except Exception:
+            o["missing"] = {"e": 1}
+        if kind == "dense":
+            try:
+                o["headers"] = val(sort_pairs([[canon_key(k), i] for k, i in dict(w.headers).items()]))
+            except Exception:
+                o["headers"] = {"e": 1}
+            try:
+                o["len"] = len(w)
+            except Exception as ex:
+                o["len"] = type(ex).__name__
+        else:
+            try:
+                inv = getattr(w, "_inv", None) or {}
+                o["inv"] = sort_pairs([[canon_key(k), canon_key(n)] for k, n in dict(inv).items()])
+            except Exception as ex:
+                o["inv"] = ["raises", type(ex).__name__]
+        out.append(o)
+    return out
 
 
 TABLE_KEYS = ("kind", "base", "rows", "ri", "acc", "perm", "nonuniform", "nested", "touch")
@@ -1122,6 +1191,7 @@ def run_real(case, f1=None, f2=None):
         second[j] = real_access(r2, acc[j], e)
     out["second"] = second
     out["again"] = [real_access(r2, a, e) for a in acc]
+    out["probe"] = real_probe(r2, case["kind"])
     out["src_mutated"] = source_mutated(case, src1) or source_mutated(case, src2)
     out.pop("_src")
     return out, et
@@ -1337,6 +1407,8 @@ def arff_quote_area(case):
     ARFF table with a line holding both quote kinds and a line holding none (which one is loaded first depends on the access order)."""
     if case["kind"] != "dense" or case["base"]["wrap"] != "arff":
         return False
+    if not open_sig(ARFF_QUOTE_SIG):
+        return False        # C13-F13 is repaired in /repo: failures in this shape are ordinary failures again (e.g. stale feats after a later wrapper = C13-F8)
     lines = [",".join(arff_token(c, case["base"].get("qs")) for c in r) for r in case["rows"]]
     return any('"' in l and "'" in l for l in lines) and any('"' not in l and "'" not in l for l in lines)
 
@@ -1471,7 +1543,7 @@ class C13(Property):
             "dict/LazySparse±loader±encoders±header maps/ArffReader rows), pipelines of 0-5 stages from HeadRows(list|mapping), "
             "EncodeRows(sequence|mapping by index/name), DropRows(columns by index/name, row predicate missing|cell==v), LabelRows(index|name), "
             "EncodeCatRows(onehot|onehot_tuple|string|None); 3-10 accesses (position incl. len and len+1, name, iter, len, keys, items, copy, "
-            "headers, == same/reflected/lazy/perturbed, label, tipe, feats.<access>) on one row, the same accesses permuted and then repeated "
+            "headers, == same/reflected/lazy/perturbed/padded with 1-3 None cells/cut by 1-3 cells, label, tipe, feats.<access>) on one row, the same accesses permuted and then repeated "
             "on a fresh copy; in 45 % of the cases the SAME filter objects then process one or two further tables (the first table with columns permuted / "
             "one removed / one added, headers and base encoders moving with their column, or converted dense<->sparse), each judged against its own eager model and sent through the model's `session` in one request (theorem filter_stateless); 4 % of the multi-row dense tables are jagged and 30 % of the multi-row plain sparse tables under EncodeCatRows have a later dict with other keys / categoricals than the first (flag nonuniform: only the first-row model tableD1 / tableS1 is compared); 6 % of the cases are 2-3 dense tables that differ only in the header map (own HeadRows(list|mapping in dict/MappingProxyType/ChainMap/custom Mapping flavours), shared LabelRows, by-name access on feats), 5 % have cells that are lists/dicts holding categoricals under EncodeCatRows ((B) only); 25 % of the cases with stages carry a fork: the stages before the last run once, then the last stage and a variant of it (same filter class, other drop columns / encoders / label / header names) are applied to the SAME row objects and the rows (and .feats for two labels) of the two forks are compared pairwise with == in both directions: lazy_a == lazy_b iff eager_a == eager_b; every case compares its source data deeply before/after; 22 % of the accesses are made on a copy of the row taken at that point of the history (copy.copy / copy.deepcopy / pickle round trip; pickle is skipped where the object holds a lambda or closure), the copy must be indistinguishable from the eager row and the original unchanged; the model receives the copy steps as Acc.clone (theorems access_after_clone, clone_leaves_original); 6 % of the cases are dense ARFF tables with quoted cells (rows with double-quoted / single-quoted / both / no quoted cells) and 30 % of the ordinary multi-row cases read the sibling rows of the observed row first (ascending / descending, another order on the second copy): rows of one read share the line reader / filter closures; non-trivial = at least one stage or a lazy base, and at least 3 accesses with an eager value; distinct by canonical JSON")
     trusted_base = [
@@ -1490,13 +1562,18 @@ class C13(Property):
         "ARFF text parsing itself (tokenising, dialect detection) belongs to C12; here ArffReader sees comma separated tokens, bare or quoted (round g)",
         "exception classes: (B) demands IndexError for a position at/after the end (as a list); (A) compares the class the code raises with the model's errD / errS "
         "on every access where both raise (theorems lazy_error_eq_eager_error(_sparse)); where the eager row has no value the class is compared with the model only",
+        "phase 5: `missing` / `headers` / `_inv` seen through 1-3 further EncodeRows({}) views are compared with the model's probeD / probeS on every case ((A); `_inv` is "
+        "private state: (A) only) and `headers` / `missing` must not depend on the depth ((B), theorems forwarding_depth_independent / probe_depth_independent); "
+        "the __getattr__ guard and the per-class __eq__/__len__/__iter__/__getattr__ table are extracted from the source on every run (getattr_guard_extracted, protocol_table_extracted)",
+        "sparse by-key access of an absent key: (B) demands KeyError like the eager dict (theorems sparse_get, lazy_error_eq_eager_error_sparse), except for a raw integer key "
+        "of a row whose base carries a header map (hidden keys, sparse_get_counterexample)",
         "dense ARFF cells may be quoted (values holding blanks, commas, one quote kind); the text is a function of the cell (arff_token); other ARFF syntax stays with C12",
     ]
     assumptions = [
         "header names are distinct (ArffReader rejects duplicates; a duplicate name has no eager by-name meaning)",
         "negative positions are outside the property",
-        "accesses for which the eager row has no value (unknown name, absent sparse key, a cell whose encoder raises) are only compared with the model (A), "
-        "except positions >= len which must raise",
+        "accesses for which the eager row has no value (unknown dense name, a cell whose encoder raises) are only compared with the model (A), "
+        "except positions >= len (must raise IndexError) and absent sparse keys (must raise KeyError)",
         "EncodeRows is not generated after EncodeCatRows (str() of a tuple is not modelled)",
     ]
     partial_theorems = {
@@ -1513,6 +1590,35 @@ class C13(Property):
     ROW_VIEW_BASES = ("Dense", "Dense_", "Sparse", "Sparse_")
     NOT_A_PIPELINE_VIEW = ("SparseDense",)      # coba/pipes/rows.py: a mutable dense view of a dict built by Densify, never by the row filters
 
+    @staticmethod
+    def getattr_guard(cls_node):
+        """(operator, constant) of the guard `if attr <op> <const>: raise AttributeError(attr)` of the class's `__getattr__`, which must end in
+        `return getattr(self._row, attr)`; anything else is reported as it is found (and then differs from the model's `forwardGuard`)"""
+        import ast
+        fn = next((f for f in cls_node.body if isinstance(f, ast.FunctionDef) and f.name == "__getattr__"), None)
+        if fn is None:
+            return ("NoGetattr", "")
+        arg = fn.args.args[1].arg if len(fn.args.args) > 1 else "attr"
+        last = fn.body[-1]
+        fwd = (isinstance(last, ast.Return) and isinstance(last.value, ast.Call) and isinstance(last.value.func, ast.Name) and last.value.func.id == "getattr"
+               and len(last.value.args) == 2 and ast.unparse(last.value.args[0]) == "self._row" and ast.unparse(last.value.args[1]) == arg)
+        if not fwd:
+            return ("NoForward", "")
+        stmts = [st for st in fn.body[:-1] if not (isinstance(st, ast.Expr) and isinstance(st.value, ast.Constant))]    # docstrings aside
+        if not stmts:
+            return ("NoGuard", "")
+        if len(stmts) != 1 or not isinstance(stmts[0], ast.If) or stmts[0].orelse or len(stmts[0].body) != 1 or not isinstance(stmts[0].body[0], ast.Raise):
+            return ("Other", "statements")
+        t = stmts[0].test
+        if (isinstance(t, ast.Compare) and len(t.ops) == 1 and isinstance(t.ops[0], (ast.Eq, ast.NotEq)) and isinstance(t.left, ast.Constant)
+                and isinstance(t.comparators[0], ast.Name)):
+            t = ast.Compare(left=t.comparators[0], ops=t.ops, comparators=[t.left])      # `'_row' == attr`
+        if (isinstance(t, ast.Compare) and len(t.ops) == 1 and isinstance(t.left, ast.Name) and t.left.id == arg
+                and isinstance(t.comparators[0], ast.Constant) and isinstance(t.comparators[0].value, str)
+                and all(ch.isascii() and (ch.isalnum() or ch == "_") for ch in t.comparators[0].value)):
+            return (type(t.ops[0]).__name__, t.comparators[0].value)
+        return ("Other", "".join(ch if (ch.isascii() and (ch.isalnum() or ch in "_[]:=. ")) else "?" for ch in ast.unparse(t))[:60])
+
     def pre_build(self):
         """regenerate lean/CobaVerif/Generated/C13Methods.lean from the CURRENT coba source: for every row-view class (the base classes
         Dense / Dense_ / Sparse / Sparse_ of coba/primitives.py and every class of coba/pipes/rows.py deriving from them) the public
@@ -1522,6 +1628,7 @@ class C13(Property):
         from core import lean
         repo = os.environ.get("COBA_REPO", "/repo")
         notes = []
+        guards = []
         try:
             classes = []
             for rel, pick in (("coba/primitives.py", lambda c, bases: c.name in self.ROW_VIEW_BASES),
@@ -1545,6 +1652,8 @@ class C13(Property):
                                         if n not in ms:
                                             ms.append(n)
                             classes.append((node.name, sorted(ms)))
+                            if node.name in self.ROW_VIEW_BASES:
+                                guards.append((node.name,) + self.getattr_guard(node))
             if not classes:
                 raise LookupError("no row-view class found")
             for n, ms in classes:
@@ -1558,13 +1667,23 @@ class C13(Property):
                     "/-- per row-view class: the public methods / properties it defines -/\n"
                     "def rowViewClasses : List (String × List String) :=\n  [%s]\n"
                     "/-- their union, sorted -/\ndef rowViewMethods : List String :=\n  %s\n"
-                    "def extracted : Bool := true\nend Coba.C13.Generated\n"
-                    % (",\n   ".join('("%s", %s)' % (n, lst(ms)) for n, ms in classes), lst(union)))
+                    "def extracted : Bool := true\n"
+                    "/-- per base class: the guard of `__getattr__` in front of `return getattr(self._row, attr)`: (class, comparison operator, constant) -/\n"
+                    "def getattrGuards : List (String × String × String) :=\n  [%s]\n"
+                    "/-- per concrete row-view class: defines `__eq__`, `__len__`, `__iter__`, `__getattr__` itself -/\n"
+                    "def protocolTable : List (String × Bool × Bool × Bool × Bool) :=\n  [%s]\n"
+                    "end Coba.C13.Generated\n"
+                    % (",\n   ".join('("%s", %s)' % (n, lst(ms)) for n, ms in classes), lst(union),
+                       ", ".join('("%s", "%s", "%s")' % g for g in guards),
+                       ",\n   ".join('("%s", %s)' % (n, ", ".join("true" if m in ms else "false" for m in ("__eq__", "__len__", "__iter__", "__getattr__")))
+                                      for n, ms in classes if n not in self.ROW_VIEW_BASES)))
+            notes.append("__getattr__ guards: %s" % " ".join("%s:%s:%s" % g for g in guards))
             notes.append("row-view protocol extracted from %d classes: %s" % (len(classes), " ".join(union)))
         except Exception as e:
             body = ("-- GENERATED: the row-view classes could not be read (%s)\nnamespace Coba.C13.Generated\n"
                     "def rowViewClasses : List (String × List String) := []\ndef rowViewMethods : List String := []\n"
-                    "def extracted : Bool := false\nend Coba.C13.Generated\n" % str(e).replace("\n", " ")[:150])
+                    "def extracted : Bool := false\ndef getattrGuards : List (String × String × String) := []\n"
+                    "def protocolTable : List (String × Bool × Bool × Bool × Bool) := []\nend Coba.C13.Generated\n" % str(e).replace("\n", " ")[:150])
             notes.append("row-view protocol could NOT be extracted (%s): the obligation methods_covered fails" % e)
         path = os.path.join(lean.LEAN_DIR, "CobaVerif", "Generated", "C13Methods.lean")
         old = open(path, encoding="utf-8").read() if os.path.exists(path) else None
@@ -1833,7 +1952,10 @@ class C13(Property):
         if a == "name":
             return {"a": "name", "k": rng.choice(names_pool)}
         if a == "eq":
-            return {"a": "eq", "o": rng.wchoice([(3, "same"), (2, "refl"), (2, "lazy"), (4, "diff")]), "h": rng.below(30)}
+            o = rng.wchoice([(3, "same"), (2, "refl"), (2, "lazy"), (4, "diff"), (2, "pad"), (2, "cut")])
+            if o in LENGTH_EQ:
+                return {"a": "eq", "o": o, "n": rng.randint(1, 3)}
+            return {"a": "eq", "o": o, "h": rng.below(30)}
         if a == "feats":
             return {"a": "feats", "sub": self.gen_access(rng, kind, nmax, names_pool, False, False)}
         return {"a": a}
@@ -2429,6 +2551,69 @@ class C13(Property):
         # label not last (forced hypothesis of feats_label)
         cs.append(mk("dense", plain, [["1", "2", "3"]], [head, {"op": "label", "k": "b", "t": "c"}, {"op": "encode", "seq": ["int", "int", "int"]}], full_d + lab_d))
         cs.append(mk("sparse", plain, [[["a", "1"], ["b", "2"]]], [{"op": "label", "k": "b", "t": "c"}, {"op": "encode", "map": [["a", "int"], ["b", "int"]]}], full_s + lab_s))
+        cs += self.corpus_phase5(mk)
+        return cs
+
+    def corpus_phase5(self, mk):
+        """deterministic families of phase 5 (round h themes): == against another length with None surplus, attribute forwarding through
+        1, 2, 3 wrapping views, DropRows' row predicate on the given row"""
+        cs = []
+        plain = {"wrap": "plain"}
+        head = {"op": "head", "names": ["a", "b", "c"]}
+        # --- eq-length: rows whose trailing cells are None / missing, compared with the eager row cut by 1..3 cells and padded with 1..3 None
+        eqs = [{"a": "eq", "o": "same"}] + [{"a": "eq", "o": o, "n": n} for o in ("cut", "pad") for n in (1, 2, 3)] + [{"a": "len"}, {"a": "iter"}]
+        feqs = [{"a": "feats", "sub": a} for a in eqs]
+        arff3 = {"wrap": "arff", "cols": [{"name": "a", "t": "num"}, {"name": "b", "t": "num"}, {"name": "c", "t": "str"}]}
+        arff4 = {"wrap": "arff", "cols": [{"name": "a", "t": "num"}, {"name": "b", "t": "cat", "lv": ["p", "q"]}, {"name": "c", "t": "str"}, {"name": "d", "t": "num"}]}
+        lazy3 = {"wrap": "lazy", "loader": True, "enc": ["int", "str", "int"], "hdr": ["a", "b", "c"]}
+        wraps = [[], [{"op": "encode", "map": []}], [{"op": "drop", "cols": ["zz"], "pred": None}], [{"op": "encode", "seq": ["id", "id", "id"]}, {"op": "drop", "cols": [7], "pred": None}],
+                 [{"op": "encode", "map": []}, {"op": "drop", "cols": ["zz"], "pred": None}, {"op": "encode", "map": []}]]
+        for st in wraps:
+            cs.append(mk("dense", arff3, [["4", "?", "?"], ["1", "2", "x"]], st, eqs))
+            cs.append(mk("dense", lazy3, [["1", "?", ""]], st, eqs))
+            cs.append(mk("dense", plain, [[1, None, None]], [head] + st, eqs))
+            cs.append(mk("dense", {"wrap": "lazy", "loader": False}, [[4, None, None]], st, eqs))
+        cs.append(mk("dense", arff4, [["4", "?", "?", "?"]], [{"op": "label", "k": 0, "t": "r"}], eqs + feqs))
+        cs.append(mk("dense", arff4, [["4", "p", "?", "?"]], [{"op": "drop", "cols": ["b"], "pred": None}, {"op": "label", "k": "a", "t": None}], eqs + feqs))
+        cs.append(mk("dense", plain, [[1, 2]], [{"op": "head", "names": ["a", "b"]}], eqs))
+        cs.append(mk("dense", plain, [[None, None, None]], [{"op": "encode", "seq": ["id", "id", "id"]}], eqs))
+        cs.append(mk("sparse", plain, [[["a", 1], ["b", None], ["c", None]]], [{"op": "encode", "map": []}], eqs + [{"a": "items"}]))
+        cs.append(mk("sparse", {"wrap": "lazy", "loader": True}, [[["a", 1], ["b", None]]], [{"op": "drop", "cols": ["zz"], "pred": None}], eqs + [{"a": "items"}]))
+        # --- forwarding depth: `_inv` (through LabelRows with an int label), `headers`, `missing` behind 1, 2, 3 wrapping views
+        full_s = [{"a": "name", "k": "a"}, {"a": "name", "k": "b"}, {"a": "name", "k": "c"}, {"a": "name", "k": 2}, {"a": "iter"}, {"a": "len"}, {"a": "keys"}, {"a": "items"},
+                  {"a": "label"}, {"a": "feats", "sub": {"a": "items"}}, {"a": "feats", "sub": {"a": "name", "k": "c"}}, {"a": "feats", "sub": {"a": "len"}}]
+        full_d = [{"a": "headers"}, {"a": "name", "k": "a"}, {"a": "name", "k": "c"}, {"a": "iter"}, {"a": "len"}, {"a": "label"}, {"a": "feats", "sub": {"a": "headers"}},
+                  {"a": "feats", "sub": {"a": "name", "k": "c"}}, {"a": "feats", "sub": {"a": "iter"}}]
+        views_s = [{"op": "drop", "cols": ["a"], "pred": None}, {"op": "encode", "map": [["b", "id"]]}, {"op": "drop", "cols": ["zz"], "pred": None}]
+        views_d = [{"op": "encode", "seq": ["id", "id", "id"]}, {"op": "encode", "map": [["b", "id"]]}, {"op": "encode", "map": []}]
+        arffs = {"wrap": "arff", "cols": [{"name": "a", "t": "num"}, {"name": "b", "t": "num"}, {"name": "c", "t": "num"}]}
+        for depth in (1, 2, 3):
+            for lab in (2, 1):
+                cs.append(mk("sparse", plain, [[[0, 5], [1, 6], [2, 7]], [[1, 8], [2, 9]]], [head] + views_s[:depth] + [{"op": "label", "k": lab, "t": "r"}], full_s, depth % 2))
+                cs.append(mk("sparse", {"wrap": "lazy", "loader": True, "hdr": ["a", "b", "c"]}, [[[0, 5], [1, 6], [2, 7]]], views_s[:depth] + [{"op": "label", "k": lab, "t": "r"}], full_s))
+                cs.append(mk("sparse", arffs, [[[0, "5"], [1, "6"], [2, "7"]], [[2, "9"]]], views_s[:depth] + [{"op": "label", "k": lab, "t": "r"}], full_s, depth % 2))
+                cs.append(mk("dense", plain, [[5, 6, 7]], [head] + views_d[:depth] + [{"op": "label", "k": lab, "t": "r"}], full_d))
+            cs.append(mk("dense", lazy3, [["1", "x", "3"]], views_d[:depth] + [{"op": "label", "k": "c", "t": None}], full_d))
+            # `missing` read by a row predicate behind 1, 2, 3 views: the row with '?' goes, the other stays
+            cs.append(mk("dense", arff3, [["1", "2", "x"], ["?", "2", "y"], ["3", "4", "z"]], views_d[:depth] + [{"op": "drop", "cols": [], "pred": {"p": "missing"}}], [{"a": "iter"}, {"a": "len"}, {"a": "headers"}], 1))
+            cs.append(mk("sparse", arffs, [[[0, "5"]], [[1, "?"]], [[2, "7"]]], views_s[1:1 + depth] + [{"op": "drop", "cols": ["a"], "pred": {"p": "missing"}}], [{"a": "items"}, {"a": "len"}, {"a": "keys"}], 1))
+        # --- drop-pred: DropRows with columns AND a row predicate reading a cell at / after the first dropped column, by a dropped name, by a dropped key
+        acc_d = [{"a": "iter"}, {"a": "len"}, {"a": "pos", "i": 0}, {"a": "pos", "i": 1}, {"a": "pos", "i": 2}]
+        rows3 = [[1, "x", 10], [2, "y", 20], [3, "x", 30]]
+        for cols, k, v in (([0], 1, "x"), ([0], 2, 20), ([1], 1, "y"), ([0, 1], 2, 30), ([1], 2, 10), ([0], 0, 2)):
+            for ri in (0, 1):
+                cs.append(mk("dense", plain, rows3, [{"op": "drop", "cols": cols, "pred": {"p": "eq", "k": k, "v": v}}], acc_d, ri))
+        for cols, k, v in ((["a"], "a", 2), (["a"], "b", "x"), (["b", 0], "b", "y"), (["a"], 1, "x"), (["c"], "c", 10)):
+            cs.append(mk("dense", plain, rows3, [head, {"op": "drop", "cols": cols, "pred": {"p": "eq", "k": k, "v": v}}], acc_d + [{"a": "headers"}, {"a": "name", "k": "c"}], 0))
+            cs.append(mk("dense", {"wrap": "lazy", "loader": True, "hdr": ["a", "b", "c"]}, rows3, [{"op": "drop", "cols": cols, "pred": {"p": "eq", "k": k, "v": v}}, {"op": "label", "k": 0, "t": None}],
+                         acc_d + [{"a": "label"}, {"a": "feats", "sub": {"a": "iter"}}], 1))
+        acc_s = [{"a": "items"}, {"a": "len"}, {"a": "keys"}, {"a": "name", "k": "b"}, {"a": "name", "k": "a"}]
+        rows_s = [[["a", 1], ["b", "x"]], [["a", 2], ["b", "y"]], [["a", 1], ["b", "z"]]]
+        for cols, k, v in ((["a"], "a", 1), (["b"], "b", "y"), (["a", "b"], "a", 2), (["a"], "b", "x")):
+            for ri in (0, 1):
+                cs.append(mk("sparse", plain, rows_s, [{"op": "drop", "cols": cols, "pred": {"p": "eq", "k": k, "v": v}}], acc_s, ri))
+            cs.append(mk("sparse", {"wrap": "lazy", "loader": True}, rows_s, [{"op": "encode", "map": []}, {"op": "drop", "cols": cols, "pred": {"p": "eq", "k": k, "v": v}}], acc_s, 0))
+        cs.append(mk("sparse", plain, [[[0, 1], [1, "x"]], [[0, 2], [1, "y"]]], [{"op": "head", "names": ["a", "b"]}, {"op": "drop", "cols": ["a"], "pred": {"p": "eq", "k": "a", "v": 1}}], acc_s, 0))
         return cs
 
     # -------------------------------------------------------------- evaluation
@@ -2582,6 +2767,15 @@ class C13(Property):
                                 case["ri"], json.dumps(case["stages"]), touched, json.dumps(orig_acc[j]), got["e"]), bsig[j]))
                         elif "e" in exp and "e" in got and leaf(acc)["a"] == "pos":
                             tags.append("class-checked:IndexError")
+                        elif exp.get("cls") and "e" in got and got["e"] != exp["cls"]:
+                            # sparse by-key access of an absent key: a plain dict raises KeyError (theorem lazy_error_eq_eager_error_sparse)
+                            bsig[j] = "%s:%s:wrong-exception-class:last=%s" % (kind, acc_name(acc), last_wrapper(case))
+                            fails.append(BF("a%d" % j, "row %d after %s%s: access %s raises %s, the eager dict raises %s" % (
+                                case["ri"], json.dumps(case["stages"]), touched, json.dumps(orig_acc[j]), got["e"], exp["cls"]), bsig[j]))
+                        elif exp.get("cls") and "e" in got:
+                            tags.append("class-checked:" + exp["cls"])
+                        if kind == "sparse" and "e" in exp and leaf(acc)["a"] == "name":
+                            tags.append("must-raise:absent-key" + (":feats" if acc["a"] == "feats" else ""))
                         if ("e" in exp) != ("e" in got) or ("v" in exp and exp["v"] != got["v"]):
                             bsig[j] = classify(case, acc, exp, got)
                             fails.append(BF("a%d" % j, "row %d after %s%s: access %s gives %s, the eager row gives %s" % (
@@ -2594,6 +2788,19 @@ class C13(Property):
                                            ARFF_QUOTE_SIG if arff_quote_area(case) else "%s:order-dependent:%s" % (kind, leaf(acc)["a"])))
         if real.get("no_row"):
             tags.append("no-row")
+        probe = real.get("probe")
+        if probe and type(probe[0]) is dict and "wrap_err" not in probe[0]:
+            # (B) an attribute reached through 1, 2, 3 further wrapping views is the attribute of the row itself (forwarding_depth_independent)
+            tags.append("probe:" + ("hdr" if "v" in (probe[0].get("headers") or {}) else ("inv" if probe[0].get("inv") else "none")) + ("+missing" if "v" in probe[0]["missing"] else ""))
+            for d, o in enumerate(probe[1:], 1):
+                if "wrap_err" in o:
+                    break           # EncodeRows({}) does not accept this row object (not a coba row view / a view whose len() raises): no claim
+                bad = [k for k in ("headers", "missing") if k in probe[0] and o.get(k) != probe[0][k]]
+                if bad:
+                    fails.append(BF("p%d" % d, "row %d after %s: seen through %d further EncodeRows({}) view(s) the attribute %s is %s, on the row itself it is %s" % (
+                        case["ri"], json.dumps(case["stages"]), d, bad[0], json.dumps(o.get(bad[0], o))[:200], json.dumps(probe[0].get(bad[0]))[:200]),
+                        "%s:forwarding-depth:%s:last=%s" % (kind, bad[0], last_wrapper(case))))
+                    break
         # (A) correspondence with the Lean model, (C) model vs spec
         model = None
         if driver is not None:
@@ -2657,6 +2864,26 @@ class C13(Property):
                                 d = ("access %s: implementation raises %s, model raises %s (stages %s)" % (json.dumps(acc), rc, errs[j], json.dumps(case["stages"])[:300]),
                                      "%s:%s:exception-class:last=%s" % (kind, acc_name(acc), last_wrapper(case)))
                                 break
+                if d is None and probe and ans.get("probe") and "first" in m and not case.get("nested"):
+                    # attribute forwarding through 0..3 further views: implementation against probeD / probeS
+                    for dep, (x, y) in enumerate(zip(probe, ans["probe"])):
+                        if "wrap_err" in x:
+                            break
+                        y = dict(y)
+                        if "headers" in y:
+                            y["headers"] = canon_model_obs(kind, {"a": "headers"}, y["headers"])
+                        if "inv" in y:
+                            y["inv"] = sort_pairs(y["inv"])
+                        if x != y:
+                            d = ("attributes seen through %d further EncodeRows({}) view(s): implementation %s, model %s (stages %s)" % (
+                                dep, json.dumps(x)[:200], json.dumps(y)[:200], json.dumps(case["stages"])[:300]), "%s:probe:depth=%d:last=%s" % (kind, dep, last_wrapper(case)))
+                            break
+                    else:
+                        tags.append("A-probe-compared")
+                if "pad" in ans and ans["pad"]:
+                    for j, flag in enumerate(ans["pad"]):
+                        if flag:
+                            tags.append("eq-length-discriminating:" + str(case["acc"][j].get("o") if case["acc"][j]["a"] == "eq" else "feats"))
                 if d:
                     fails.append(F("A", "implementation and model differ: %s" % d[0], "A:" + d[1]))
             # (C) the theorems, at run time: model refines spec; a history of accesses = independent accesses
@@ -2786,13 +3013,9 @@ def other_side(e, acc):
     if e is None or has_err(e):
         return None
     if isinstance(e, ED):
-        plain = list(e.vals)
-        if acc["o"] == "diff":
-            plain = perturb(plain, acc.get("h", 0))
+        plain = other_plain(list(e.vals), acc)
         return [cell_to_model(v) for v in plain]
-    plain = dict(e.d)
-    if acc["o"] == "diff":
-        plain = perturb(plain, acc.get("h", 0))
+    plain = other_plain(dict(e.d), acc)
     return [[k, cell_to_model(v)] for k, v in plain.items()]
 
 
